@@ -11,7 +11,7 @@ RULE = ("command histories over {step, rewind} (+ a final run = 'outcome of cont
         "script-code start, code-separator index, budget, done flag, marker) is compared by TLC with spec/Debugger.tla, whose Rewind "
         "pops a complete snapshot; distinct = distinct (Open event, command list)")
 ASSUME = c01.ASSUME[:3] + ["histories stop being compared at the first failed step (outside the property's quantifier)"]
-CMP = ["stack", "alt", "cond", "err", "done", "pc", "opcount", "cbegin", "cspos", "weight", "seq"]
+CMP = ["stack", "alt", "cond", "err", "done", "pc", "opcount", "cbegin", "cspos", "oppos", "weight", "seq"]
 O = G.OP
 KEY33 = bytes([2]) + b"\x11" * 32      # 33-byte key: an unknown key type in tapscript (no cryptography, charged 50)
 SIG = b"\x01" * 64
@@ -76,6 +76,16 @@ def make_jobs(chk):
                 n += 1
                 jobs.append(SessionJob("h%d:%s:walk%d" % (n, name, k), script, stack, fl, sv, succ=succ,
                                        cmds=["step"] * k + ["rewind"] * 3 + ["step"] * 2 + ["rewind"] * (k - 1) + ["step"] * 2 + ["run"], cmp=CMP, hist=True))
+    # whole tapscript / witness spends with real signatures and executed OP_CODESEPARATORs, set up by the tool: go back over the separator
+    # and the signature check and forward again; the digest the code computes is compared each time
+    import gen_spend
+    for typ, m in (("p2tr-script", 0), ("p2tr-script", 1), ("p2tr-script", 3), ("p2wsh", None), ("p2sh", None), ("p2tr-key", None)):
+        for rep in range(3 if quick else 25):
+            c = gen_spend.SpendCase(rng, typ, "valid", 1, 0, 0, pathlen=m) if m is not None else gen_spend.SpendCase(rng, typ, "valid", 1, 0, 0)
+            for pat in (["step"] * 12 + ["rewind"] * 5 + ["steps"], (["step"] * 4 + ["rewind"] * 2) * 5 + ["steps"], ["steps", "rewind", "rewind", "rewind", "steps"]):
+                n += 1
+                jobs.append(SessionJob("hs%d:%s" % (n, typ), b"", [], drivers.STANDARD, "BASE", cmds=pat, cmp=[x for x in gen_spend.CMP_SPEND if x != "verdict"] + ["cspos", "oppos"],
+                                       hist=True, auto=True, txctx={"tx": c.tx.hex(), "txin": c.funding.hex(), "select": -1}))
     # random walks on long generated scripts
     for i, (sv, s) in enumerate(G.long_scripts(rng, 60 if quick else 800)):
         cmds = []
